@@ -23,9 +23,10 @@ PKGS = {
     "bc": (MOD + "/lib/b.c", "bc", "lib/b.c"),
     "x": (MOD + "/lib/a/internal/x", "x", "lib/a/internal/x"),
     "nm": (MOD + "/lib/named", "differs", "lib/named"),
+    "us": (MOD + "/lib/under_score2", "under_score2", "lib/under_score2"),
 }
 # import graph between library packages: a -> x, a -> bc ; nm -> bc ; main -> all except x (internal to lib/a: not importable from main)
-LIB_IMPORTS = {"a": ["x", "bc"], "bc": [], "x": [], "nm": ["bc"]}
+LIB_IMPORTS = {"a": ["x", "bc"], "bc": [], "x": [], "nm": ["bc"], "us": []}
 
 
 class Unit:
@@ -89,7 +90,7 @@ def assemble(units, header_main="", main_extra="", modpath=MOD, print_args=True,
     for n, u in units:
         sub = lambda s: s.replace("@", str(n))
         src = sub(u.decls) + "\nfunc u%d() {\n%s\n}\n" % (n, sub(u.body))
-        cands = std_candidates() + [(PKGS[k][0], PKGS[k][1]) for k in ("a", "bc", "nm")]
+        cands = std_candidates() + [(PKGS[k][0], PKGS[k][1]) for k in ("a", "bc", "nm", "us")]
         files["u%d.go" % n] = "package main\n\n" + _import_block(_used_imports(src, cands)) + src
         for k, d in u.pkgs.items():
             psrc = sub(d)
@@ -104,7 +105,7 @@ def assemble(units, header_main="", main_extra="", modpath=MOD, print_args=True,
         files["%s/base.go" % d] = "package %s\n\n%s\n// Base%s keeps the package non-empty.\nfunc Base%s() string { return \"%s\" }\n" % (
             name, edges, name.title(), name.title(), k)
     m = ["package main\n\nimport (\n\t\"fmt\"\n\t\"os\"\n"]
-    m += ['\t_ "%s"\n' % PKGS[k][0] for k in ("a", "bc", "nm")]
+    m += ['\t_ "%s"\n' % PKGS[k][0] for k in ("a", "bc", "nm", "us")]
     m.append(")\n\n" + header_main + "\nfunc guard(n int, name string, f func()) {\n"
              "\tdefer func() {\n\t\tif r := recover(); r != nil {\n\t\t\tfmt.Println(\"unit\", n, \"panic:\", r)\n\t\t}\n\t}()\n"
              "\tfmt.Println(\"== unit\", n, name)\n\tf()\n}\n\n"
